@@ -55,6 +55,21 @@ Proof.
     + inversion Hk; subst. reflexivity.
 Qed.
 
+Lemma upload_ops_keys U id order cid lbl l o :
+  upload_ops std_upload U id order cid lbl = Some l -> In o l -> fst (op_key key obj o) = id.
+Proof.
+  intros H Ho. unfold upload_ops in H. destruct (ublock U id) as [bl|] eqn:Hu.
+  2:{ inversion H; subst. contradiction. }
+  destruct (perm_b order (map fst (b_chunks bl))) eqn:Hp; [|discriminate].
+  pose proof (upload_ops_std U id order cid lbl bl Hu Hp) as Hs. unfold upload_ops in Hs.
+  rewrite Hu, Hp in Hs. rewrite Hs in H. inversion H; subst l. clear H Hs.
+  apply in_app_or in Ho as [Ho|[Ho|[]]]; [|subst; reflexivity].
+  apply in_map_iff in Ho as [[i f] [Ho Hk]]. subst o. simpl.
+  unfold data_keys in Hk. apply in_app_or in Hk as [Hk|[Hk|[]]].
+  - apply in_map_iff in Hk as [n [Hk _]]. inversion Hk; reflexivity.
+  - inversion Hk; reflexivity.
+Qed.
+
 Lemma bhas_mono (b : bucket) l k :
   forallb (is_up key obj) l = true -> bhas b k = true -> bhas (bapply_ops b l) k = true.
 Proof.
@@ -73,12 +88,14 @@ Definition loop_post (U : univ) (L : locals) (c : cfg) (has blocks : list N) (b 
     /\ (r_ret res = true -> forall id i, In id blocks -> linfo_of L id = Some i -> eligible c i = true ->
           memN id has = true \/ bhas (r_bucket res) (id, FMeta) = true)
     /\ (forall l, r_meta res = Some l -> exists new, l = up ++ new /\
-          forall id, In id new -> memN id has = true \/ bhas (r_bucket res) (id, FMeta) = true).
+          forall id, In id new -> memN id has = true \/ bhas (r_bucket res) (id, FMeta) = true)
+    /\ (forall o, In o ops' -> linfo_of L (fst (op_key key obj o)) <> None).
 
 Lemma loop_post_stop U L c has blocks b ops up :
   loop_post U L c has blocks b ops up (mksres b ops None false).
 Proof.
   exists []. simpl. rewrite app_nil_r. repeat split; try reflexivity; try exact I; try discriminate.
+  intros o [].
 Qed.
 
 Lemma sync_loop_ret_errs U L c has : forall blocks b n ops up errs cids ck res,
@@ -113,7 +130,7 @@ Lemma loop_post_cons_same U L c has id r b ops up up' res :
   (up' = up \/ (up' = up ++ [id] /\ (memN id has = true \/ bhas b (id, FMeta) = true))) ->
   loop_post U L c has (id :: r) b ops up res.
 Proof.
-  intros [ops' [H1 [H2 [H3 [H4 [H5 [H6 H7]]]]]]] Hid Hup.
+  intros [ops' [H1 [H2 [H3 [H4 [H5 [H6 [H7 H8]]]]]]]] Hid Hup.
   assert (Hmono : forall k, bhas b k = true -> bhas (r_bucket res) k = true).
   { intros k Hk. rewrite H2. apply bhas_mono; assumption. }
   exists ops'. repeat split; try assumption.
@@ -132,12 +149,13 @@ Qed.
 Lemma loop_post_cons_ops U L c has id r b ops ops1 up up' res :
   wf_univ U -> binv U b ->
   bguarded U b ops1 -> forallb (is_up key obj) ops1 = true -> forallb (meta_lbl_ok (c_lbl c)) ops1 = true ->
+  (forall o, In o ops1 -> linfo_of L (fst (op_key key obj o)) <> None) ->
   loop_post U L c has r (bapply_ops b ops1) (ops ++ ops1) up' res ->
   (r_ret res = true -> bhas (bapply_ops b ops1) (id, FMeta) = true) ->
   (up' = up \/ (up' = up ++ [id] /\ bhas (bapply_ops b ops1) (id, FMeta) = true)) ->
   loop_post U L c has (id :: r) b ops up res.
 Proof.
-  intros Hwf Hb G1 U1 L1 [ops' [H1 [H2 [H3 [H4 [H5 [H6 H7]]]]]]] Hid Hup.
+  intros Hwf Hb G1 U1 L1 K1 [ops' [H1 [H2 [H3 [H4 [H5 [H6 [H7 H8]]]]]]]] Hid Hup.
   assert (Hmono : forall k, bhas (bapply_ops b ops1) k = true -> bhas (r_bucket res) k = true).
   { intros k Hk. rewrite H2. apply bhas_mono; assumption. }
   exists (ops1 ++ ops'). repeat split.
@@ -154,6 +172,7 @@ Proof.
     + exists new. split; assumption.
     + exists (id :: new). split; [rewrite Hn1, <- app_assoc; reflexivity|].
       intros id' [Hi|Hi]; [subst id'; right; apply Hmono; exact Hidok|apply Hn2; exact Hi].
+  - intros o Ho. apply in_app_or in Ho as [Ho|Ho]; [apply K1; exact Ho|apply H8; exact Ho].
 Qed.
 
 Lemma sync_loop_sound U L c has : wf_univ U -> forall blocks b n ops up errs cids ck res,
@@ -169,6 +188,7 @@ Proof.
     repeat split; try reflexivity; try exact I.
     + intros _ id i [].
     + intros l Hl. exists []. rewrite app_nil_r. split; [apply Hm; exact Hl|intros id []].
+    + intros o [].
   - destruct (linfo_of L id) as [i|] eqn:Hli; [|discriminate].
     destruct (ublock U id) as [bl|] eqn:Hu; [|discriminate].
     destruct (memN id has) eqn:Hmem.
@@ -199,17 +219,19 @@ Proof.
       assert (L1 : forallb (meta_lbl_ok (c_lbl c)) (firstn k l) = true) by (rewrite Hlbl; apply forallb_firstn; exact Hlbls).
       assert (Hb1 : binv U (bapply_ops b (firstn k l))).
       { apply (binv_states U b (firstn k l) Hwf Hb G1). apply states_last. }
+      assert (K1 : forall o, In o (firstn k l) -> linfo_of L (fst (op_key key obj o)) <> None).
+      { intros o Ho. apply firstn_In_local in Ho. rewrite (upload_ops_keys U id _ _ lbl l o Hl Ho), Hli. discriminate. }
       destruct u.
       * (* uploaded *)
         rewrite (Hfull eq_refl) in *.
         assert (Hm : bhas (bapply_ops b l) (id, FMeta) = true).
         { apply bhas_true. rewrite (upload_final U b id _ _ lbl l bl Hu Hl). discriminate. }
-        apply (loop_post_cons_ops U L c has id r b ops l up (up ++ [id]) res Hwf Hb G1 U1 L1); [eapply IH; eauto| |].
+        apply (loop_post_cons_ops U L c has id r b ops l up (up ++ [id]) res Hwf Hb G1 U1 L1 K1); [eapply IH; eauto| |].
         -- intros _. exact Hm.
         -- right. split; [reflexivity|exact Hm].
       * (* upload failed *)
         destruct (c_ooo c).
-        -- apply (loop_post_cons_ops U L c has id r b ops (firstn k l) up up res Hwf Hb G1 U1 L1); [eapply IH; eauto| |left; reflexivity].
+        -- apply (loop_post_cons_ops U L c has id r b ops (firstn k l) up up res Hwf Hb G1 U1 L1 K1); [eapply IH; eauto| |left; reflexivity].
            intros Hr. apply (sync_loop_ret_errs U L c has) in H; [discriminate|exact Hr].
         -- inversion H; subst res. exists (firstn k l). simpl. repeat split; try assumption; try discriminate.
       * inversion H; subst res. exists (firstn k l). simpl. repeat split; try assumption; try discriminate.
@@ -247,11 +269,13 @@ Lemma sync_sound U L c mf b res :
   /\ (r_ret res = true -> forall id i, In id (c_present c) -> linfo_of L id = Some i -> eligible c i = true ->
         memN id (mf_list mf) = true \/ bhas b' (id, FMeta) = true)
   /\ (forall id, In id (mf_list (mf_next mf res)) -> memN id (mf_list mf) = true \/ bhas b' (id, FMeta) = true)
-  /\ (forall k, bhas b k = true -> bhas b' k = true).
+  /\ (forall k, bhas b k = true -> bhas b' k = true)
+  /\ (forall o, In o (r_ops res) -> linfo_of L (fst (op_key key obj o)) <> None)
+  /\ forallb (is_up key obj) (r_ops res) = true.
 Proof.
   intros Hwf Hb H. unfold sync in H. rewrite upload_phases_std in H.
   apply (sync_loop_sound U L c _ Hwf) in H; [|exact Hb].
-  destruct H as [ops' [H1 [H2 [H3 [H4 [H5 [H6 H7]]]]]]]. simpl in H1. cbv zeta. rewrite H1. rewrite <- H2.
+  destruct H as [ops' [H1 [H2 [H3 [H4 [H5 [H6 [H7 H8]]]]]]]]. simpl in H1. cbv zeta. rewrite H1. rewrite <- H2.
   fold (mf_list mf) in *.
   repeat split; try assumption.
   - intros Hr id i Hin Hl He. eapply H6; eauto. apply sort_blocks_In. exact Hin.
@@ -289,7 +313,7 @@ Proof.
   apply andb_true_iff in Hchk as [Hops Hsn].
   apply ops_eqb_spec in Hops. apply buckets_eqb_spec in Hsn. apply Bool.eqb_prop in Hret.
   apply option_nlist_eqb_spec in Hmf.
-  destruct (sync_sound U L c (snd st) (fst st) res Hwf Hst Hs) as [Hg [Hlb [Hel [Hrec Hmono]]]].
+  destruct (sync_sound U L c (snd st) (fst st) res Hwf Hst Hs) as [Hg [Hlb [Hel [Hrec [Hmono _]]]]].
   assert (Hall : forall b', In b' (bstates (fst st) (r_ops res)) -> binv U b').
   { intros b' Hb'. apply (binv_states U (fst st) (r_ops res) Hwf Hst Hg). exact Hb'. }
   split.
@@ -321,7 +345,7 @@ Proof.
   apply IH; assumption.
 Qed.
 
-Lemma corr_implies_pred c : corr_ok c = true -> pred_ok c = true.
+Lemma corr_implies_pred c : corr_ok c = true -> pred_core c = true.
 Proof.
   destruct c as [U L steps]. simpl. intros H. apply andb_true_iff in H as [Hwf Hc].
   apply (steps_sound U L steps ([], None) (wf_univ_b_spec U Hwf)); [|exact Hc].
@@ -357,7 +381,7 @@ Lemma sync_keeps_good U L c st res :
   /\ (forall id cid files lbl, In (Up (id, FMeta) (MetaO cid files lbl)) (r_ops res) -> c_lbl c = Some lbl).
 Proof.
   intros Hwf [Hb Hrv] Hs.
-  destruct (sync_sound U L c (snd st) (fst st) res Hwf Hb Hs) as [Hg [Hlb [Hel [Hrec Hmono]]]].
+  destruct (sync_sound U L c (snd st) (fst st) res Hwf Hb Hs) as [Hg [Hlb [Hel [Hrec [Hmono _]]]]].
   assert (Hall : forall b', In b' (bstates (fst st) (r_ops res)) -> binv U b').
   { intros b' Hb'. apply (binv_states U (fst st) (r_ops res) Hwf Hb Hg). exact Hb'. }
   assert (Hb' : binv U (bapply_ops (fst st) (r_ops res))) by (apply Hall; apply states_last).
@@ -461,7 +485,7 @@ Qed.
 
 Lemma model_case_ok U L cs steps :
   wf_univ_b U = true -> model_steps U L ([], None) cs = Some steps ->
-  corr_ok (CSync U L steps) = true /\ pred_ok (CSync U L steps) = true.
+  corr_ok (CSync U L steps) = true /\ pred_core (CSync U L steps) = true.
 Proof.
   intros Hwf H. assert (Hc : corr_ok (CSync U L steps) = true).
   { simpl. rewrite Hwf. simpl. eapply model_steps_corr; eauto. }
